@@ -123,6 +123,12 @@ func ASCII85Decode(data []byte) ([]byte, error) {
 			break
 		}
 
+		// A final group of a single digit cannot be produced by any encoder
+		// (n bytes are written as n+1 digits) and carries no data.
+		if len(digits) == 1 {
+			return nil, fmt.Errorf("invalid ASCII85 data: final group has a single digit")
+		}
+
 		// Pad incomplete group with 'u' (84 = highest ASCII85 value)
 		// This is required for correct decoding
 		numBytes := len(digits) - 1
@@ -136,10 +142,14 @@ func ASCII85Decode(data []byte) ([]byte, error) {
 
 		// Convert base-85 to binary
 		// Each group of 5 digits represents 4 bytes
-		value := uint32(0)
+		wide := uint64(0)
 		for _, d := range digits {
-			value = value*85 + uint32(d)
+			wide = wide*85 + uint64(d)
 		}
+		if wide > 0xFFFFFFFF {
+			return nil, fmt.Errorf("invalid ASCII85 group: value exceeds 32 bits")
+		}
+		value := uint32(wide)
 
 		// Extract bytes (big-endian)
 		for j := 0; j < numBytes; j++ {
